@@ -571,6 +571,11 @@ def validate_path(unit, ctx, res, rng):
         res['float_oracle_failures'].extend('%s: %s %s' % (unit.name, f[0], f[1]) for f in fctx.float_failures[:3])
         res['float_fail_points'].append((env, [list(f) for f in fctx.float_failures[:5]]))
         return
+    if isinstance(st, str) and st.startswith('harness-error'):
+        # the float run of the harness asked for a variable the symbolic run never created: the
+        # two runs are not the same experiment (a harness defect, never silently skipped)
+        res['inconclusive'].append('%s: float replay of the harness failed: %s' % (unit.name, st))
+        return
     if st != 'ok':
         res['validation_skipped'] += 1
         return
